@@ -747,14 +747,22 @@ func runScenario(sc *scenario, tr *hx.Trace, tr2 *hx.Trace, work string, r *hx.R
 				var gateOn atomic.Bool
 				gateOn.Store(true)
 				gone := make(chan struct{})
+				var heldData atomic.Int64
 				tgt.Gate = func(connID int, name string, args [][]byte) <-chan struct{} {
 					if gateOn.Load() && (name == "rpush" || name == "multi" || name == "hset") {
+						if name == "rpush" || name == "multi" {
+							heldData.Add(1)
+						}
 						return gone
 					}
 					return nil
 				}
 				emitCmds(2)
-				time.Sleep(12 * time.Millisecond) // batch ticker 5 ms: the batch is on its way
+				// the batch ticker is 5 ms: wait until a data command of the next batch is on its way to the target (or nothing comes)
+				for dl := time.Now().Add(400 * time.Millisecond); heldData.Load() == 0 && time.Now().Before(dl); {
+					time.Sleep(200 * time.Microsecond)
+				}
+				time.Sleep(2 * time.Millisecond)
 				tgt.Crash()
 				gateOn.Store(false)
 				close(gone)
@@ -864,6 +872,7 @@ func main() {
 	shards := flag.Int("shards", 1, "")
 	work := flag.String("work", os.TempDir(), "")
 	only := flag.Int("only", 0, "run only the scenario with this id")
+	pipeCrash := flag.Int("pipecrash", 0, "additional directed scenarios: pipelined sending, the target dies twice with batches in flight")
 	eventsPath := flag.String("events", "", "write the event-level trace of every run (for trace/TracePipeline.tla) to this file")
 	flag.Parse()
 	hx.QuietLogs()
@@ -899,13 +908,17 @@ func main() {
 	nScen := 0
 	kinds := map[string]int{}
 	pool := []string{"drop", "dropmid", "failover", "losebacklog", "targetcrash"}
-	for s := 0; s < *n; s++ {
+	for s := 0; s < *n+*pipeCrash; s++ {
 		if s%*shards != *shard || (*only > 0 && s+1 != *only) {
 			continue
 		}
 		r := hx.NewRng(*seed*32452843 + uint64(s))
 		sc := &scenario{id: s + 1, txn: r.Bool(), disk: r.Bool(), nkeys: 1 + r.Intn(3), ncmds: 6 + r.Intn(18)}
 		sc.pipe = r.Chance(35)
+		if s >= *n {
+			// directed: pipelined sending, the target dying twice with batches on their way
+			sc.pipe, sc.txn = true, s%4 != 3
+		}
 		for f := 0; f < r.Intn(3); f++ {
 			x := pool[r.Intn(len(pool))]
 			if x == "failover" && sc.txn && r.Bool() {
@@ -917,6 +930,10 @@ func main() {
 				}
 			}
 			sc.faults = append(sc.faults, x)
+		}
+		if sc.pipe && (s%2 == 0 || s >= *n) {
+			// pipelined sending is about batches in flight: the target dies with some on their way, in the middle of the stream
+			sc.faults = []string{"targetcrash", "targetcrash"}
 		}
 		if sc.faults == nil {
 			sc.faults = []string{}
